@@ -7,6 +7,7 @@
   the `cut` engine covers the other reading of "well-formed" on every run.
   Property theorems only (helper lemmas live in Proofs/Reader.lean).
 -/
+import LispModel.Proofs.ReplLoopLaws
 import LispModel.Read
 import LispModel.Proofs.Reader
 import LispModel.Proofs.SeedLaws
@@ -94,5 +95,32 @@ theorem second_open_form_is_trailing :
     (rejectedWith (bytes% "(a) (b") .trailing && !multiLine .trailing &&
      rejectedWith (bytes% "(b") (.eof ")") && multiLine (.eof ")")) = true :=
   Proofs.SeedLaws.C16.second_open_form_is_trailing
+
+
+/-! ## the REPL's line loop (repl/repl.go `Execute` + `multiLine`, `lisp.REPL`; model LispModel/ReplLoop.lean,
+engine replloop — which drives the REAL loop in a child process with piped input)
+
+"… which is what the REPL uses to keep reading lines": the loop that does it, and what it therefore guarantees. -/
+
+open LispModel.ReplLoop in
+/-- while the text typed so far is an OPEN text (it tokenizes, and closing brackets alone would complete it) the REPL
+    evaluates nothing and prints nothing; when the last line completes it, there is exactly ONE evaluation — of the whole
+    expression — and the lines are forgotten -/
+theorem repl_evaluates_a_bracketed_expression_once (st : State) (ls : List String) (last : String) (ast : Val)
+    (hopen : ∀ k, 0 < k → k ≤ ls.length → OpenText (joinLines ((ls.take k).map trimSpace)))
+    (hread : replRead (joinLines ((ls ++ [last]).map trimSpace)) = .ok ast) :
+    run st (ls ++ [last]) =
+      ((finish ((ls ++ [last]).map trimSpace) (replEvalPrint st ast)).1,
+       (ls.map fun _ => Out.none) ++ [(finish ((ls ++ [last]).map trimSpace) (replEvalPrint st ast)).2]) :=
+  bracketed_expression_over_lines st ls last ast hopen hread
+
+open LispModel.ReplLoop in
+/-- a reported error (anything but the incomplete-input messages and the empty line) makes the REPL forget the lines: the
+    next line starts a fresh expression -/
+theorem repl_error_resets {σ : Type} (re : ReadEval σ) (st : RState σ) (line next : String) (e : LErr) (env' : σ)
+    (h : re st.env (textOf st line) = (.error e, env')) (hk : e.keeps = false) :
+    replStep re st line = ({ lines := [], env := env' }, .error e) ∧
+    replStep re (replStep re st line).1 next = finish [trimSpace next] (re env' (trimSpace next)) :=
+  error_resets re st line next e env' h hk
 
 end LispModel.Props.C16
